@@ -158,12 +158,12 @@ static sqfs_object_t *data_reader_copy(const sqfs_object_t *obj)
 		goto fail_ftbl;
 
 	if (data->data_block != NULL) {
-		copy->data_block = malloc(data->data_blk_size);
+		copy->data_block = malloc(data->block_size);
 		if (copy->data_block == NULL)
 			goto fail_dblk;
 
 		memcpy(copy->data_block, data->data_block,
-		       data->data_blk_size);
+		       data->block_size);
 	}
 
 	if (copy->frag_block != NULL) {
